@@ -586,6 +586,7 @@ func (b *Built) resolver(tn string, fd FieldDef) graphql.FieldResolveFn {
 			}
 			call.Occ = append(call.Occ, -1)
 		}
+		call.Oc = rc.outcome(tn, fd.Name, srcTag).K
 		rc.mu.Lock()
 		rc.Calls = append(rc.Calls, call)
 		rc.mu.Unlock()
